@@ -40,6 +40,9 @@ type scCfg struct {
 	// Junk (image objects): behind the signatures the certificate table holds one more WIN_CERTIFICATE whose PKCS#7 blob
 	// is not an Authenticode signature (a plain SignedData over data)
 	Junk bool `json:"junk_entry,omitempty"`
+	// Seekable (image objects): the medium the image was parsed from is a file-like object with a cursor of its own
+	// (Read, Seek) besides ReadAt
+	Seekable bool `json:"seekable_medium,omitempty"`
 	// FaultAt > 0 (sequential runs on an image): the FaultAt-th read of the medium after the schedule starts fails once.
 	// The operation it hits is not judged; every other call, before and after, answers as on a healthy medium, and the
 	// object is what it was.
@@ -55,6 +58,8 @@ type scOp struct {
 	// Scribble: the caller, who owns what a call returned to it, overwrites the returned memory (up to its capacity) once
 	// it has looked at it. Results are copies: nothing the object holds may change by that.
 	Scribble bool `json:"scribble,omitempty"`
+	// Dest: which kind of destination buffer a Marshal call gets (scDest)
+	Dest int `json:"dest,omitempty"`
 }
 
 type schedEngine struct{ variant string } // "", "instr", "race"
@@ -136,12 +141,13 @@ func (e *schedEngine) Gen(seed uint64, tier string, run int) *Trace {
 			}
 		}
 		c.Junk = c.Image.Gen != nil && r.Fork("junk").Chance(1, 6)
+		c.Seekable = r.Fork("seekable").Chance(1, 3)
 		if fr := r.Fork("fault"); c.Mode == "seq" && e.variant != "race" && fr.Chance(1, 4) {
 			c.FaultAt = 1 + fr.Intn(40)
 		}
 		kinds = scImageOps
 	case "db":
-		c.DB = r.Intn(7) // 3, 4: with a list that the caller assembled by hand around a PEM encoded certificate; 5, 6: long lists
+		c.DB = r.Intn(8) // 3, 4: with a list that the caller assembled by hand around a PEM encoded certificate; 5, 6: long lists; 7: lists of one type not adjacent
 		kinds = scDBOps
 	case "dbdecoded":
 		c.DB = r.Intn(3)
@@ -197,7 +203,7 @@ func (e *schedEngine) Gen(seed uint64, tier string, run int) *Trace {
 				cl = r.Intn(c.Clients)
 			}
 		}
-		ops = append(ops, scOp{C: cl, Op: Pick(r, enabled), Scribble: r.Chance(1, 4)})
+		ops = append(ops, scOp{C: cl, Op: Pick(r, enabled), Scribble: r.Chance(1, 4), Dest: r.Intn(4)})
 	}
 	var sw []Switch
 	if c.Mode == "inter" {
@@ -340,7 +346,11 @@ func (e *schedEngine) build(c scCfg, x *X, plane *Plane) (mk func() *scObject) {
 		}
 		other := Pool()[7]
 		return func() *scObject {
-			bin, err := authenticode.Parse(&SimReader{data: signed, p: plane})
+			var medium io.ReaderAt = &SimReader{data: signed, p: plane}
+			if c.Seekable {
+				medium = &SimReadSeeker{SimReader: &SimReader{data: signed, p: plane}}
+			}
+			bin, err := authenticode.Parse(medium)
 			if err != nil {
 				harnessf("sched: reparse: %v", err)
 			}
@@ -387,9 +397,15 @@ func (e *schedEngine) build(c scCfg, x *X, plane *Plane) (mk func() *scObject) {
 					harnessf("sched: db setup: %v", err)
 				}
 			}
-			add(0, 0, 0)
-			add(0, 1, 1)
-			add(1, 0, 6)
+			if c.DB == 7 {
+				// certificate, hash, certificate of another length: the two certificate lists are not neighbours
+				add(1, 0, 6)
+				add(0, 0, 0)
+				add(1, 1, 8)
+			}
+			add(0, 0, 0+c.DB/7)
+			add(0, 1, 1+c.DB/7)
+			add(1, 0, 6+c.DB/7)
 			if c.DB >= 1 {
 				add(1, 1, 7)
 				add(0, 2, 2)
@@ -431,9 +447,9 @@ func (e *schedEngine) build(c scCfg, x *X, plane *Plane) (mk func() *scObject) {
 					}
 					return scResult(r, nil)
 				case "Marshal":
-					var b bytes.Buffer
-					db.Marshal(&b)
-					return scOwnBuffer(&b)
+					b, skip := scDest(op.Dest)
+					db.Marshal(b)
+					return scOwnBufferAt(b, skip)
 				case "BytesExists":
 					return scResult([]byte(fmt.Sprint(db.BytesExists(dbTypes[1].G, dbOwners[0], dbData(6)))), nil)
 				case "BytesExistsMiss":
@@ -475,9 +491,9 @@ func (e *schedEngine) build(c scCfg, x *X, plane *Plane) (mk func() *scObject) {
 				case "Bytes":
 					return scResult(db.Bytes(), nil)
 				case "Marshal":
-					var b bytes.Buffer
-					db.Marshal(&b)
-					return scOwnBuffer(&b)
+					b, skip := scDest(op.Dest)
+					db.Marshal(b)
+					return scOwnBufferAt(b, skip)
 				case "BytesExists":
 					return scResult([]byte(fmt.Sprint(db.BytesExists(dbTypes[0].G, own, hit))), nil)
 				case "BytesExistsMiss":
@@ -633,15 +649,15 @@ func (e *schedEngine) build(c scCfg, x *X, plane *Plane) (mk func() *scObject) {
 			o = &scObject{dumpRoot: &both{desc, upd}, do: func(op scOp) []byte {
 				switch op.Op {
 				case "Marshal":
-					var b bytes.Buffer
-					upd.Marshal(&b)
-					return scOwnBuffer(&b)
+					b, skip := scDest(op.Dest)
+					upd.Marshal(b)
+					return scOwnBufferAt(b, skip)
 				case "Bytes":
 					return scResult(o.hold("update.Bytes()", upd.Bytes(), op.Scribble), nil)
 				case "DescMarshal":
-					var b bytes.Buffer
-					desc.Marshal(&b)
-					return scOwnBuffer(&b)
+					b, skip := scDest(op.Dest)
+					desc.Marshal(b)
+					return scOwnBufferAt(b, skip)
 				case "DescVerify":
 					ok, err := desc.Verify(pk.Cert)
 					return scResult([]byte(fmt.Sprint(ok)), err)
@@ -677,6 +693,40 @@ func (e *schedEngine) build(c scCfg, x *X, plane *Plane) (mk func() *scObject) {
 // scOwnBuffer takes the result out of a buffer the caller handed to Marshal
 // and then reuses that buffer, as its owner may: whatever Marshal wrote must
 // have been a copy.
+// scDest is the buffer a caller hands to Marshal: a zero buffer, one with spare capacity (pre-sized, or Reset and used
+// again), or one that already holds the caller's own bytes in front. What Marshal wrote is what stands behind the prefix.
+func scDest(kind int) (*bytes.Buffer, int) {
+	switch kind % 4 {
+	case 1:
+		return bytes.NewBuffer(make([]byte, 0, 8192)), 0
+	case 2:
+		b := bytes.NewBuffer(make([]byte, 0, 64))
+		b.WriteString("the caller's own header:")
+		return b, b.Len()
+	case 3:
+		b := &bytes.Buffer{}
+		b.Write(bytes.Repeat([]byte{0x77}, 5000))
+		b.Reset()
+		return b, 0
+	}
+	return &bytes.Buffer{}, 0
+}
+
+func scOwnBufferAt(b *bytes.Buffer, skip int) []byte {
+	if skip > b.Len() {
+		skip = b.Len()
+	}
+	if skip > 0 && !bytes.Equal(b.Bytes()[:skip], []byte("the caller's own header:")[:skip]) {
+		return scResult(append([]byte("PREFIX CHANGED:"), b.Bytes()...), nil)
+	}
+	rest := bytes.NewBuffer(append([]byte(nil), b.Bytes()[skip:]...))
+	full := b.Bytes()
+	for i := range full {
+		full[i] = 0xEE
+	}
+	return scOwnBuffer(rest)
+}
+
 func scOwnBuffer(b *bytes.Buffer) []byte {
 	out := scResult(append([]byte(nil), b.Bytes()...), nil)
 	full := b.Bytes()
